@@ -176,7 +176,10 @@ func (f *FieldCopyFromGenerator) genPrimitive() *j.Statement {
 					j.Id("obj." + f.ParentIsOptionalEmbedFieldName).Op("=").Id("&" + f.ParentIsOptionalEmbedFullType + "{}"),
 				)
 				g.Id("obj." + f.Name).Op("=").Id("t")
-			})
+			}).Else().If(j.Id("obj." + f.ParentIsOptionalEmbedFieldName).Op("!=").Nil()).Block(
+				// A parent the target already holds is kept, but the field itself is reset to its zero value
+				j.Id("obj." + f.Name).Op("=").Id("t"),
+			)
 			return
 		}
 
